@@ -112,14 +112,14 @@ package drpchttp
 //@   site (Value).Call assert [C14.twirp-code-shape] nin == 0 && nout == 1 && knd == 24 && len(arg1) == 0
 //@   site Out assert [C14.twirp-code-result] arg1 == 0
 //@   site Sprintf assert [C14.drpc-code-text] arg0 == "drpcerr(%d)"
-//@   ghost entry dcode = 0
-//@   ghost after:Code#1 dcode = ret
+//@   ghost entry drpcCode = 0
+//@   ghost after:Code#1 drpcCode = ret
 //@   ghost entry nxt = nil
 //@   ghost after:Cause nxt = ret
 //@   ghost after:Unwrap nxt = ret
 //@   loop 1 step [C14.follows-the-chain] eventCount("invoke:Cause") + eventCount("invoke:Unwrap") == 1 && err == nxt
-//@   check [C14.default-code] eventCount("call:(Value).Call") == 0 && dcode == 0 ==> result == "unknown"
-//@   check [C14.drpc-code-used] dcode != 0 ==> eventCount("call:Sprintf") == 1
+//@   check [C14.default-code] eventCount("call:(Value).Call") == 0 && drpcCode == 0 ==> result == "unknown"
+//@   check [C14.drpc-code-used] drpcCode != 0 ==> eventCount("call:Sprintf") == 1
 
 // ---- grpc-web
 
@@ -229,21 +229,20 @@ package drpchttp
 //@   props C14 C13
 //@   requires ts.rw != nil
 //@   modifies *
-//@   ghost entry code = 0
-//@   ghost call:WriteHeader code = arg1
-//@   check [C14.ok-200]    err == nil ==> code == 200 && eventCount("invoke:Write") == 1 && eventCount("invoke:WriteHeader") == 1
-//@   check [C14.err-status] err != nil ==> code != 0 || eventCount("call:Error") == 1
+//@   ghost entry hstatus = 0
+//@   ghost call:WriteHeader hstatus = arg1
+//@   check [C14.ok-200]    err == nil ==> hstatus == 200 && eventCount("invoke:Write") == 1 && eventCount("invoke:WriteHeader") == 1
+//@   check [C14.err-status] err != nil ==> hstatus != 0 || eventCount("call:Error") == 1
 //@   ghost entry tcode = ""
 //@   ghost after:getCode tcode = ret
 //@   ghost entry jerr = nil
 //@   ghost after:MarshalIndent jerr = ret1
 //@   ghost entry jdata = nil
 //@   ghost after:MarshalIndent jdata = ret0
-//@   site Write#1 assert [C14.ok-body] err == nil && arg1 == ts.response && code == 200
-//@   site WriteHeader#2 assert [C14.status-table] arg1 == ite(twirpStatus[tcode] == 0, 500, twirpStatus[tcode]) && jerr == nil
-//@   site (Header).Set assert [C14.json-content-type] arg1 == "Content-Type" && arg2 == "application/json" && eventCount("invoke:WriteHeader") == 0
-//@   site Write#2 assert [C14.json-body] arg1 == jdata && jerr == nil && eventCount("invoke:WriteHeader") == 1
-//@   site Error#2 assert [C14.marshal-failure-500] arg2 == 500 && jerr != nil
+//@   site Write assert [C14.body] (err0 == nil ==> arg1 == ts.response && hstatus == 200) && (err0 != nil ==> arg1 == jdata && jerr == nil && eventCount("invoke:WriteHeader") == 1)
+//@   site WriteHeader assert [C14.status-table] (err0 == nil ==> arg1 == 200) && (err0 != nil ==> arg1 == ite(twirpStatus[tcode] == 0, 500, twirpStatus[tcode]) && jerr == nil)
+//@   site (Header).Set assert [C14.json-content-type] arg1 == "Content-Type" && arg2 == "application/json" && eventCount("invoke:WriteHeader") == 0 && err0 != nil
+//@   check [C14.marshal-failure-500] jerr != nil ==> eventCount("call:Error") == 1 && eventCount("invoke:WriteHeader") == 0 && eventCount("invoke:Write") == 0
 //@   check [C14.err-body] err != nil && jerr == nil ==> eventCount("invoke:WriteHeader") == 1 && eventCount("invoke:Write") == 1 && eventCount("call:getCode") == 1
 
 // ServeHTTP: the protocol is chosen by the exact content type, with "*" as the fallback; the stream is
